@@ -147,6 +147,16 @@ pub fn distance<IntT: for<'a> UInt<'a>>(
     let mask_ambig = false;
     let ignore_const_gaps = false;
     let filter_ambig_as_missing = false;
+    // Frequency filter on its own first, so the k-mers it drops are not counted
+    // as constant (matching) sites below
+    apply_filters(
+        ska_array,
+        min_freq,
+        filter_ambig_as_missing,
+        &FilterType::NoFilter,
+        mask_ambig,
+        ignore_const_gaps,
+    );
     let constant = apply_filters(
         ska_array,
         min_freq,
